@@ -48,17 +48,43 @@ DiffRep(e, rep) ==
                                     <<"fees", <<rep.fpl, rep.frl>> = <<e.rx.fpl, e.rx.frl>> >> >>)
     [] e.op \in {"increase", "decrease"} ->
          First([k \in 1..Len(PosFields) |-> <<PosFields[k], rep.pos[PosFields[k]] = e.rx[PosFields[k]]>>]
-               \o << <<"sw1", rep.sw1 = e.rx.sw1>>, <<"sw2", rep.sw2 = e.rx.sw2>> >>)
+               \o << <<"sw1", rep.sw1 = e.rx.sw1>>, <<"sw2", rep.sw2 = e.rx.sw2>>, <<"ncb", rep.ncb = e.ncb>> >>)
     [] e.op = "distribute" -> First(<< <<"d", rep.d = e.rx.d>>, <<"next", rep.next = e.rx.next>>, <<"dur", rep.dur = e.rx.dur>> >>)
     [] e.op \in {"update_funding", "update_borrowing"} -> First(<< <<"dur", rep.dur = e.rx.dur>> >>)
     [] OTHER -> ""
 
+(* the exchange event of a logged event (s0 = its pre-state) *)
+PosRepOf(e) == [imp |-> e.rx.imp, impAmt |-> e.rx.impAmt, diff |-> e.rx.diff, xprice |-> e.rx.xprice, dtok |-> e.rx.dtok,
+                dcoll |-> e.rx.dcoll, wd |-> e.rx.wd, dsize |-> e.rx.dsize, pnl |-> e.rx.pnl, unc |-> e.rx.unc,
+                step |-> e.rx.step, remove |-> e.rx.remove, out |-> e.rx.out, sec |-> e.rx.sec, clL |-> e.rx.clL,
+                clS |-> e.rx.clS, hold |-> e.rx.hold, uo |-> e.rx.uo, us |-> e.rx.us, feeCost |-> e.rx.feeCost,
+                fund |-> e.rx.fund]
+RepOf(e) == [minted |-> e.r.minted, wd |-> e.r.wd, swOut |-> e.r.sw_out, impact |-> e.rx.impact,
+             impactAmt |-> e.rx.impactAmt, fpl |-> e.rx.fpl, frl |-> e.rx.frl, fps |-> e.rx.fps, frs |-> e.rx.frs,
+             pos |-> PosRepOf(e), d |-> e.rx.d, next |-> e.rx.next, dur |-> e.rx.dur, sw1 |-> e.rx.sw1, sw2 |-> e.rx.sw2,
+             ncb |-> e.ncb]
+JOf(e, s0) == [reset |-> e.reset, op |-> e.op, a |-> e.arg, c |-> e.cx, px |-> e.px, ok |-> e.ok, panic |-> e.panic,
+               s0 |-> s0, s1 |-> StateOf(e), sp |-> IF e.part.has THEN PartOf(e, s0) ELSE StateOf(e), rep |-> RepOf(e)]
+CEvOf(e) == CEv(StateOf(e), e.cx, e.px, e.c11.slot, e.c11.k, e.c11.d, e.c11.f1, e.c11.f2, e.c11.q1, e.c11.q2)
+
+(* every monitor of ExchangeProps on one logged event (Jp = the previous exchange event) *)
+Monitors(step, pre, Jp, J, e, ledger, nl) ==
+  HistMonitors(step, pre.m, e, ledger, nl)
+  \o (IF IsLiqOp(J) THEN MarketMonitors(J) ELSE <<>>)
+  \o (IF step /\ J.op = "withdraw" THEN LpRoundTripMonitors(Jp, J) ELSE <<>>)
+  \o (IF IsPosOp(J) THEN PositionMonitors(J) ELSE <<>>)
+  \o (IF step /\ J.op = "decrease" THEN PosRoundTripMonitors(Jp, J) ELSE <<>>)
+  \o (IF e.c11.has THEN PnlMonitors(CEvOf(e)) ELSE <<>>)
+  \o (IF J.op = "distribute" THEN DistributionMonitors(J) ELSE <<>>)
+
+(* probes of the real code on the post-state: pool values (both kinds) and pnl_value (C11 probe) *)
 DiffPv(e) ==
   LET s == StateOf(e)
       d == PoolValue(s, e.cx, e.px, "deposit", TRUE)
       w == PoolValue(s, e.cx, e.px, "withdrawal", FALSE)
   IN First(<< <<"pv.dep", d.ok = e.pv.dep_ok /\ (d.ok => d.v = e.pv.dep)>>,
-              <<"pv.wd",  w.ok = e.pv.wd_ok  /\ (w.ok => w.v = e.pv.wd)>> >>)
+              <<"pv.wd",  w.ok = e.pv.wd_ok  /\ (w.ok => w.v = e.pv.wd)>>,
+              <<"pnl_value", e.c11.has => PP!ConformsPnl(CEvOf(e))>> >>)
 
 Tag(pfx, w) == IF w = "" THEN "" ELSE pfx \o w
 (* "" = the event conforms exactly *)
@@ -87,10 +113,11 @@ Next ==
          step == i' > 1 /\ ~e.reset
          pre  == IF i' > 1 THEN Rec[i' - 1] ELSE Rec[i']
          s0   == IF step THEN StateOf(pre) ELSE Init0(e.cx.vi)
+         sp0  == IF i' > 2 /\ ~pre.reset THEN StateOf(Rec[i' - 2]) ELSE Init0(pre.cx.vi)
          nl   == NextLedger(led, e)
          w    == DriftWhat(s0, e)
      IN /\ led' = nl
-        /\ Judge(i', Monitors(step, pre, s0, e, led, nl))
+        /\ Judge(i', Monitors(step, pre, JOf(pre, sp0), JOf(e, s0), e, led, nl))
         /\ Drift(i', w = "", e.op \o ":" \o w)
 Spec == Init /\ [][Next]_<<i, led>>
 Done == Emit("DONE", [events |-> TLCGet("stats").diameter - 1])
